@@ -201,7 +201,27 @@ pub fn c19_set_iters<const N: usize, const M: usize, const W: u8>() {
     same(&buf, &exp);
 }
 
+/// C06: formatting with width / fill / alignment / precision / sign flags into the fixed sink makes no allocator
+/// call and does not fail (the rendered text under such flags is not specified by C19, so it is not compared)
+pub fn c06_fmt_specs<const N: usize, const W: u8>() {
+    let (m, n) = any_d_map::<N>();
+    let (s, sn) = any_d_set::<N>();
+    let mut buf = Buf::new();
+    let r = match W {
+        0 => write!(buf, "{:>12}|{:<6}", m, s),
+        1 => write!(buf, "{:^9.3}|{:+}", m, s),
+        2 => write!(buf, "{:>14?}|{:<8?}", m, s),
+        3 => write!(buf, "{:08}|{:*^11}", m, s),
+        _ => write!(buf, "{:>6?}|{:<3?}", m.iter(), m.keys()),
+    };
+    vf::check(r.is_ok(), 1903);
+    vf::check(buf.n >= 5, 1901);
+    vf::reach(1);
+    vf::check(m.len() == n && s.len() == sn, 1904);
+}
+
 harnesses! {
+    c06_fmt_specs: [1, 0] [1, 1] [1, 2] [1, 3] [1, 4];
     c19_map: [0, 0] [0, 1] [0, 2] [1, 0] [1, 1] [1, 2] [2, 0] [2, 1] [2, 2];
     c19_set: [0, 0] [0, 1] [0, 2] [1, 0] [1, 1] [1, 2] [2, 0] [2, 1] [2, 2];
     c19_map_iters: [1, 0] [1, 1] [1, 2] [1, 3] [1, 4] [1, 5] [1, 6] [1, 7] [1, 8] [2, 0] [2, 1] [2, 2] [2, 3] [2, 4] [2, 5] [2, 6] [2, 7] [2, 8];
